@@ -10,7 +10,7 @@ use std::sync::{Arc, Mutex};
 const WX_PIECES: &[&str] = &[
     "<a", "{{a}}", " ", ">", "/>", "</a>", "\u{3000}", "\u{a0}", "=", "\"", "{{", "}}", " b=\"", "0x", "g", "0", "7", "9", "99999999999999999999",
     "0777777777777777777777777", "0xffffffffffffffffffff", "e", ".", "-", "<!meta", "<!--", "-->", "&#0;", "&", ";", "'", "\\", "x", "[", ",", "]", "(", ")", "?", ":", "a", "<wxs", "\n", "\u{1F600}",
-    "<", "!", "<!", "</", "<!-", "<wxs module=\"m\">", "</wxs",
+    "<", "!", "<!", "</", "<!-", "<wxs module=\"m\">", "</wxs", "'\\ud800'", "{{'\\ud83d\\ude00'}}", "\\uDFFF",
 ];
 const CSS_PIECES: &[&str] = &[
     ".a", " ", "{", "}", "(", ")", "[", "]", ":", ";", "@media", "@import", "\"", "'", "url(", "1rpx", "calc(", "+", "-", "/*", "*/", "\\", ":host", ",", "#", "\n", "\u{1F600}", "1e999rpx", "@",
